@@ -310,6 +310,9 @@ fn check_project_in(ctx: &Ctx, p: &GenProject, t: &mut Tape, rec: &Rec, dir: &Pa
     if p.bom_files > 0 {
         rec.class("projects_with_byte_order_mark");
     }
+    if p.sugared_defs > 0 {
+        rec.class("projects_with_tuple_or_anonymous_component_statements");
+    }
     rec.class_n("definitions", reference.definitions as u64);
     let ids: std::collections::BTreeSet<String> = want.keys().map(|s| s.1.clone()).collect();
     let has_cfg_stage = ids.contains("CS0001");
@@ -437,7 +440,7 @@ fn check_project_in(ctx: &Ctx, p: &GenProject, t: &mut Tape, rec: &Rec, dir: &Pa
 
 fn case(ctx: &Ctx, tape: &[u8], rec: &Rec) -> Verdict {
     let mut t = Tape::new(tape);
-    let p = gen_project(&mut t, ProjOpts::default());
+    let p = gen_project(&mut t, ProjOpts { sugar_chance: 60, ..ProjOpts::default() });
     check_project(ctx, &p, &mut t, rec)
 }
 
